@@ -10,7 +10,20 @@ import sys
 
 ROOT = os.path.dirname(os.path.dirname(os.path.abspath(__file__)))
 PROPS = {"C01": ["C01", "C02", "C06", "C11", "C18"], "C11": ["C11", "C01", "C02"], "C13": ["C13", "C10", "C14", "C12"], "C19": ["C19", "C02", "C06", "C12"],
-         "C07": ["C07", "C09", "C10", "C08", "C01"], "C04": ["C04", "C20", "C03", "C16", "C05"], "C03": ["C03", "C20", "C12", "C07", "C17"], "C14": ["C14", "C15", "C13"]}
+         "C07": ["C07", "C09", "C10", "C08", "C01"], "C04": ["C04", "C20", "C03", "C16", "C05"], "C03": ["C03", "C20", "C12", "C07", "C17"], "C14": ["C14", "C15", "C13"],
+         "C17": ["C17", "C03", "C04", "C16"], "C12": ["C12", "C03", "C04", "C13", "C10"], "C05": ["C05", "C04", "C16", "C18", "C20"], "C20": ["C20", "C04", "C03", "C16", "C05"],
+         "C08": ["C08", "C07", "C09", "C10"], "C02": ["C02", "C01", "C11", "C06", "C12"]}
+
+
+# second round (-s2rN): the properties whose checks touch the refactored code
+PROPS2 = {"C19": ["C19", "C02", "C01", "C11", "C12"], "C14": ["C14", "C15", "C13"]}
+
+
+def props_for(rid):
+    own = rid.split("-")[0]
+    if "-s2" in rid:
+        return PROPS2.get(own) or PROPS.get(own) or [own]
+    return PROPS.get(own, [own])
 
 
 def run(rid, prop):
@@ -25,13 +38,16 @@ def main():
     args = [a for a in sys.argv[1:] if not a.startswith("--")]
     jobs = int(next((a.split("=")[1] for a in sys.argv[1:] if a.startswith("--jobs=")), "3"))
     ids = args or sorted(d for d in os.listdir(os.path.join(ROOT, "refactors")) if os.path.isdir(os.path.join(ROOT, "refactors", d)))
-    tasks = [(rid, prop) for rid in ids for prop in PROPS.get(rid.split("-")[0], [rid.split("-")[0]])]
+    tasks = [(rid, prop) for rid in ids for prop in props_for(rid)]
     out = {}
     with cf.ThreadPoolExecutor(jobs) as ex:
         for rid, prop, rc, viol, inc in ex.map(lambda t: run(*t), tasks):
             out.setdefault(rid, {})[prop] = {"exit": rc, "violated": viol[:4], "inconclusive": inc[:4]}
             print(rid, prop, rc, viol[:3], inc[:3], flush=True)
-    json.dump(out, open(os.path.join(ROOT, "refactors", "results.json"), "w"), indent=1)
+    path = os.path.join(ROOT, "refactors", "results.json")
+    merged = json.load(open(path)) if os.path.exists(path) else {}
+    merged.update(out)
+    json.dump(merged, open(path, "w"), indent=1, sort_keys=True)
     alarms = [(r, p) for r, d in out.items() for p, v in d.items() if v["exit"] == 1]
     print("FALSE ALARMS:", alarms or "none")
 
